@@ -104,10 +104,21 @@ def make_arg(rng, t, assignable=False, prefer_var=False, pun_word=None):
         n = rng.choice(names)
         return Unit("(%s)" % n, t, "paren", False, VARS[n][1], "paren")
 
+    def paren_index():
+        # an element of a list variable: assignable, but only writable in parentheses (several tokens)
+        lst = rng.choice(VARS_BY_TYPE["ZL" if t == "Z" else "SL"])
+        i = rng.randint(1, len(VARS[lst][1]))
+        return Unit("(%s an der Stelle %d)" % (lst, i), t, "paren", False, VARS[lst][1][i - 1], "paren")
+
     if assignable:
-        return var() if rng.random() < 0.7 else paren_var()
+        r = rng.random()
+        if t in ("Z", "S") and r < 0.12:
+            return paren_index()
+        return var() if r < 0.7 else paren_var()
     if prefer_var and rng.random() < 0.6:
         return var()
+    if t in ("Z", "S") and rng.random() < 0.06:
+        return paren_index()
     forms = ["var", "parenvar"]
     if t in ("Z", "K"):
         forms += ["lit", "lit", "neg", "negvar", "parenexpr", "parenlit"]
@@ -488,7 +499,7 @@ class Site:
 
     def to_json(self):
         return {"id": self.id, "line": self.line, "col": self.col, "kind": self.kind, "unique": self.unique, "ctx": self.ctx,
-                "text": self.lines[0], "accepted": [{"name": a[0], "negated": a[1], "args": a[2], "stdout": a[3]} for a in self.accepted],
+                "text": self.lines[0], "accepted": [{"name": a[0], "negated": a[1], "args": a[2], "stdout": a[3], "module": a[4], "generic": a[5]} for a in self.accepted],
                 "feat": self.feat, "exp_shape": self.exp_shape, "cands": self.cands, "cinfo": self.cinfo, "winfo": self.winfo}
 
 
@@ -606,6 +617,8 @@ def gen_sites(rng, pop, nsites):
         for al in aliases:
             if match_alias(al, units, True) is not None or match_alias(al, units, False) is not None:
                 nm = al.decl.name + ("!" if al.negated else "")
+                if nm in s.cinfo and s.cinfo[nm]["len"] >= len(al):
+                    continue
                 s.cands[nm] = al.shape()
                 s.cinfo[nm] = alias_info(al)
         s.winfo = alias_info(win)
@@ -628,7 +641,7 @@ def _fill_context(rng, s, acc, ret, kind, text):
         for al, b in acc:
             dd = al.decl
             out = "".join(show(p.type, b[p.name].value if p.name in b else dd.defaults[p.name][0]) + "|" for p in dd.params) + "\n"
-            s.accepted.append((dd.name, False, {n: _norm_arg(u.text) for n, u in b.items()}, out))
+            s.accepted.append((dd.name, False, {n: _norm_arg(u.text) for n, u in b.items()}, out, dd.module, dd.generic))
         return
     if ret == "N":
         s.ctx = "statement"
@@ -666,7 +679,7 @@ def _fill_context(rng, s, acc, ret, kind, text):
         s.lines.append('Schreibe "" auf eine Zeile.')
         tail = lambda al: show("W", al.decl.retval != al.negated) + "\n"
     for al, b in acc:
-        s.accepted.append((al.decl.name, al.negated, {n: _norm_arg(u.text) for n, u in b.items()}, trace_text(al.decl, b) + tail(al)))
+        s.accepted.append((al.decl.name, al.negated, {n: _norm_arg(u.text) for n, u in b.items()}, trace_text(al.decl, b) + tail(al), al.decl.module, al.decl.generic))
 
 
 # ---------------------------------------------------------------- program layout
@@ -846,15 +859,15 @@ def gen_op_sites(rng, pop, nsites):
         if text in seen:
             continue
         seen.add(text)
-        best_a, ncand = resolve_op(pop.decls, op, operands, True)
-        best_b, _ = resolve_op(pop.decls, op, operands, False)
+        best_a, ncand, _ = resolve_op(pop.decls, op, operands, True)
+        best_b, _, _ = resolve_op(pop.decls, op, operands, False)
         has_struct = any(u.type in ("P", "Q") for u in operands)
         if not has_struct and any(d.generic for d in best_a + best_b):
             skipped += 1   # generic overloads are documented to apply to Kombination operands only: not judged
             continue
         if not has_struct:
             # a generic overload that merely *matches* primitive operands is outside the judged domain as well
-            ga, _ = resolve_op([d for d in pop.decls if d.generic], op, operands, True)
+            ga, _, _ = resolve_op([d for d in pop.decls if d.generic], op, operands, True)
             if ga:
                 skipped += 1
                 continue
@@ -862,30 +875,36 @@ def gen_op_sites(rng, pop, nsites):
         for d in best_a + best_b:
             acc[d.name] = d
         acc = list(acc.values())
+        bi = _builtin(op, [u.type for u in operands], [u.value for u in operands])
+        builtin_possible = (not best_a or not best_b) and bi is not None   # under some reading no overload applies
+        if not acc and bi is None:
+            continue
         s = Site()
         s.units = operands
         s.kind = ("binary:" if ar == 2 else "unary:") + op
         s.ctx = "zeig-arg"
         s.lines = ["Zeig (%s)." % text, 'Schreibe "" auf eine Zeile.']
         s.call_off = len("Zeig (")
+        for d in acc:
+            b = {p.name: u for p, u in zip(d.params, operands)}
+            s.accepted.append((d.name, False, {n: _norm_arg(u.text) for n, u in b.items()}, trace_text(d, b) + show("Z", d.retval) + "\n", d.module, d.generic))
+        if builtin_possible:
+            s.accepted.append(("<builtin>", False, {}, show(bi[0], bi[1]) + "\n", "", False))
         if acc:
             s.unique = len(best_a) == 1 and len(best_b) == 1 and best_a[0] is best_b[0]
-            for d in acc:
-                b = {p.name: u for p, u in zip(d.params, operands)}
-                s.accepted.append((d.name, False, {n: _norm_arg(u.text) for n, u in b.items()}, trace_text(d, b) + show("Z", d.retval) + "\n"))
             s.exp_shape = "%s(%s)" % (op, ",".join(type_short(p.type, p.ref) for p in acc[0].params))
         else:
-            bi = _builtin(op, [u.type for u in operands], [u.value for u in operands])
-            if bi is None:
-                continue
             s.unique = True
-            s.accepted.append(("<builtin>", False, {}, show(bi[0], bi[1]) + "\n"))
             s.exp_shape = "%s builtin(%s)" % (op, ",".join(u.type for u in operands))
         s.feat = {"typed_candidates": ncand, "builtin": not acc, "generic": bool(acc) and acc[0].generic, "refs": bool(acc) and sum(p.ref for p in acc[0].params),
                   "imported": bool(acc) and acc[0].module != "main", "forms": sorted({u.form for u in operands}), "op": op,
                   "overloads_for_op": sum(1 for d in pop.decls if d.op == op)}
+        opinfo = lambda d: {"len": len(d.params), "generic": d.generic, "only_list_generic": False, "refs": sum(p.ref for p in d.params), "kind": "op"}
         for d in pop.decls:
             if d.op == op:
                 s.cands[d.name] = "%s(%s)" % (op, ",".join(type_short(p.type, p.ref) for p in d.params))
+                if any(d is x for x in resolve_op(pop.decls, op, operands, True)[2] + resolve_op(pop.decls, op, operands, False)[2]):
+                    s.cinfo[d.name] = opinfo(d)
+        s.winfo = opinfo(acc[0]) if acc else {"len": ar, "generic": False, "refs": 0}
         sites.append(s)
     return sites, skipped
